@@ -16,14 +16,16 @@ CONSTANTS LeafSet,      \* "small" | "std" | "all": leaves of the merge universe
           RebuildWide,  \* TRUE: rebuild histories over all depth-2 trees on 3 keys (one kind of leaf) as well
           Deep,         \* TRUE: add the sampled depth-3 trees to the merge universe
           Wide3,        \* TRUE: add flat and sampled nested trees over 3 keys to the merge universe
-          TableWide     \* TRUE: three kinds of leaves in the pattern universe, else two
+          TableWide,    \* TRUE: three kinds of leaves in the pattern universe, else two
+          StrangeWide,  \* TRUE: the larger universe of trees over strange keys
+          Only          \* "all" | "dot": "dot" keeps only the merge pairs over dotted keys (for the must-fail run of the EAFP lookup)
 
 VARIABLES mode, t, u, ign, pat, acc, todo, go
 vars == <<mode, t, u, ign, pat, acc, todo, go>>
 args == <<mode, t, u, ign, pat, acc, todo>>
 
-KeyOrder == <<"a", "ab", "c">>
-RevOrder == <<"c", "ab", "a">>
+KeyOrder == <<"a", "ab", "c", "a.ab", "", "keys">>
+RevOrder == <<"keys", "", "a.ab", "c", "ab", "a">>
 \* "a" is a string prefix of "ab": keys that are prefixes of sibling keys are ordinary, independent keys
 Key2 == {"a", "ab"}
 Key3 == {"a", "ab", "c"}
@@ -48,6 +50,30 @@ SingleU == RootU(Key2, Leaf4, 2) \cup Wide3U \cup (IF RebuildWide THEN RootU(Key
 MergeU == RootU(Key2, MLeaf, 2) \cup (IF Deep THEN DeepU ELSE {}) \cup (IF Wide3 THEN Wide3U ELSE {})
 IgnU   == {{}, {None}, {None, VInt(1)}}
 
+\* --- the key alphabet --------------------------------------------------------------------------
+\* Keys are arbitrary strings and the laws treat them as opaque.  The code does not always: dictattr /
+\* Dict read a string that is NOT a key as a dotted path (d['a.ab'] -> d['a']['ab']), expose keys as
+\* attributes next to the methods of dict ('keys', 'items'), and tree_getitem/tree_setitem split a
+\* string argument at '.'.  The strange universes put such keys where they can be confused:
+\*   DotU   over "a", "ab", "a.ab": the key "a.ab" beside a path a -> ab that ends in a leaf or a branch
+\*   OddU   over "" (the empty key) and "keys" (a method name of dict)
+\* Segs(k): the path a dotted spelling of k would denote; a path has a dotted spelling only when all
+\* its keys are dot-free (the driver uses the 'a.b.c' spelling for those paths only).
+Segs(k)    == IF k = "a.ab" THEN <<"a", "ab">> ELSE <<k>>
+DotFree(k) == Len(Segs(k)) = 1
+Spellable(p) == \A i \in 1..Len(p) : DotFree(p[i])
+RootsOver(K, P) == {Branch(f) : f \in UNION {[S -> P] : S \in (SUBSET K) \ {{}}}}
+PickD == {VInt(1),
+          Branch([k \in {"ab"} |-> Branch([j \in {"a"} |-> VInt(1)])]),                     \* a -> ab is a branch
+          Branch([k \in {"ab", "a.ab"} |-> IF k = "ab" THEN None ELSE VInt(1)])}             \* a -> ab is a leaf; a nested dotted key
+         \cup (IF StrangeWide THEN {Branch([k \in {"ab"} |-> None]),
+                                    Branch([k \in {"a", "a.ab"} |-> IF k = "a" THEN VInt(1) ELSE Branch([j \in {"ab"} |-> None])])}
+               ELSE {})
+DotU  == RootsOver({"a", "ab", "a.ab"}, PickD)
+PickO == {VInt(1), Branch([k \in {""} |-> None]), Branch([k \in {"keys"} |-> Branch([j \in {""} |-> VInt(1)])])}
+OddU  == RootsOver({"", "keys"}, PickO)
+StrangeU == DotU \cup OddU
+
 \* patterns: every sequence of 1..4 parts over {literal a, literal b, wildcard} with at least
 \* one wildcard; the wildcards are named x, y, z, w from left to right
 VarNames == <<"x", "y", "z", "w">>
@@ -60,15 +86,18 @@ TableU == RootU(Key2, TLeaf, 2) \cup DeepU
 
 Nil == <<"nil", 0>>
 
-InitRebuild == /\ mode = "rebuild" /\ t \in SingleU /\ u = Nil /\ ign = {} /\ pat = <<>>
+InitRebuild == /\ mode = "rebuild" /\ t \in SingleU \cup StrangeU /\ u = Nil /\ ign = {} /\ pat = <<>>
                /\ acc = EmptyTree /\ todo = TItems(t)
-InitMerge   == /\ mode = "merge" /\ t \in MergeU /\ u \in MergeU /\ ign \in IgnU /\ pat = <<>>
+InitMerge   == /\ mode = "merge" /\ ign \in IgnU /\ pat = <<>>
+               /\ \/ Only = "all" /\ t \in MergeU /\ u \in MergeU
+                  \/ t \in DotU /\ u \in DotU
+                  \/ Only = "all" /\ t \in OddU /\ u \in OddU
                /\ acc = Nil /\ todo = {}
-InitTable   == /\ mode = "table" /\ t \in TableU /\ u = Nil /\ ign = {} /\ pat \in PatU
+InitTable   == /\ mode = "table" /\ t \in TableU \cup StrangeU /\ u = Nil /\ ign = {} /\ pat \in PatU
                /\ acc = Nil /\ todo = {}
 \* go: TLC evaluates invariants on initial states in a single thread; every family therefore starts
 \* with a step that only raises `go`, and the laws are stated for the states after it
-Init == (InitRebuild \/ InitMerge \/ InitTable) /\ go = FALSE
+Init == (IF Only = "all" THEN InitRebuild \/ InitMerge \/ InitTable ELSE InitMerge) /\ go = FALSE
 Start == mode = "rebuild" /\ ~go /\ go' = TRUE /\ UNCHANGED args
 
 \* one public call tree_setitem(acc, path, leaf) per step, any order
@@ -110,6 +139,26 @@ MergeOverrides  == (mode = "merge" /\ go /\ ign = {}) => \A jt \in TItems(u) : T
 MergeKeeps      == (mode = "merge" /\ go) => \A it \in TItems(t) :
                        (\A jt \in TItems(u) : ~Conflicts(it[1], jt[1])) => TGet(M, it[1]) = it[2]
 
+\* the hazard of the key alphabet, as a mechanism: _tree_setitem written with ONE lookup res[key]
+\* (try / except KeyError) instead of `key in res` + res[key].  On a dictattr the lookup of a missing
+\* key falls back to the dotted path, so the walk continues in the branch at the end of Segs(key).
+\* EAFPLookupIsMerge is refuted by TLC (must-fail run, Only = "dot").
+RECURSIVE PutAt(_, _, _)
+PutAt(tr, p, sub) == IF p = <<>> THEN sub
+                         ELSE Branch([j \in KeysOf(tr) |-> IF j = Head(p) THEN PutAt(Kids(tr)[j], Tail(p), sub) ELSE Kids(tr)[j]])
+DGet(tr, k) == IF k \in KeysOf(tr) THEN Kids(tr)[k] ELSE TGet(tr, Segs(k))
+RECURSIVE InsertE(_, _, _, _)
+InsertE(tr, path, leaf, g) ==
+    LET k == Head(path) IN
+    IF Len(path) = 1 THEN Insert(tr, path, leaf, g)
+    ELSE LET found == DGet(tr, k) IN
+         IF found # Absent /\ IsBranch(found)
+         THEN PutAt(tr, IF k \in KeysOf(tr) THEN <<k>> ELSE Segs(k), InsertE(found, Tail(path), leaf, g))
+         ELSE Branch([j \in KeysOf(tr) \cup {k} |-> IF j = k THEN InsertE(EmptyTree, Tail(path), leaf, g) ELSE Kids(tr)[j]])
+RECURSIVE InsertAllE(_, _, _)
+InsertAllE(tr, items, g) == IF items = <<>> THEN tr ELSE InsertAllE(InsertE(tr, Head(items)[1], Head(items)[2], g), Tail(items), g)
+EAFPLookupIsMerge == (mode = "merge" /\ go) => InsertAllE(t, ItemsSeq(u, KeyOrder), ign) = M
+
 \* --- "table" --------------------------------------------------------------------------------
 MatchIsLaw      == (mode = "table" /\ go) => Match(t, pat) = ToTable(t, pat) /\ ToTableFast(t, pat) = ToTable(t, pat)
 InverseOnTree   == (mode = "table" /\ go /\ Len(pat) >= 2 /\ Shaped(t, pat)) => FromTable(ToTable(t, pat), pat) = t
@@ -121,10 +170,12 @@ InverseOnRows   == (mode = "table" /\ go /\ Len(pat) >= 2) =>
 
 \* --- S2C generators ---------------------------------------------------------------------------
 GenSingle == /\ mode = "rebuild" /\ ~go /\ go' = TRUE
-             /\ PrintT(ToJson([op |-> "items", t |-> t, items |-> TItems(t)]))
+             /\ PrintT(ToJson([op |-> "items", t |-> t, items |-> TItems(t), spellable |-> {p \in TPaths(t) : Spellable(p)}]))
              /\ UNCHANGED args
 GenMerge  == /\ mode = "merge" /\ ~go /\ go' = TRUE
-             /\ PrintT(ToJson([op |-> "update", t |-> t, u |-> u, ign |-> ign, out |-> M]))
+             \* an update with a single item is also one tree_setitem(t, path, leaf, ignore) on (a copy of) t: SingleIsInsert
+             /\ PrintT(ToJson([op |-> "update", t |-> t, u |-> u, ign |-> ign, out |-> M,
+                               single |-> IF Cardinality(TItems(u)) = 1 THEN {[path |-> it[1], leaf |-> it[2], spellable |-> Spellable(it[1])] : it \in TItems(u)} ELSE {}]))
              /\ UNCHANGED args
 GenTable  == /\ mode = "table" /\ ~go /\ go' = TRUE
              /\ PrintT(ToJson([op |-> "table", t |-> t, pat |-> pat, rows |-> ToTable(t, pat),
